@@ -999,8 +999,8 @@ def enc_for(rng, ctype):
 class C13(Property):
     id = "C13"
     prop_modules = ["CobaVerif.Props.C13"]
-    quick_n = 1500
-    thorough_n = 40000
+    quick_n = 5000
+    thorough_n = 200000
     search_n = 3000
     case_timeout = 60
     workers = 8
